@@ -66,12 +66,16 @@ package clickhouse_transpiler
 //@   ensures leaf-is-an-attribute-term: c.simpleIdx != -1 ==> (result <==> isAttrTerm(a.Terms[c.simpleIdx].Label))
 //@   ensures and-needs-one-operand: c.simpleIdx == -1 && c.op == "&&" ==> (result <==> (exists k int :: 0 <= k && k < len(c.complex) && a.whereImplied(c.complex[k])))
 //@   ensures or-needs-every-operand: c.simpleIdx == -1 && c.op != "&&" ==> (result <==> (forall k int :: 0 <= k && k < len(c.complex) ==> a.whereImplied(c.complex[k])))
+//   (both loops carry both invariants, each under the operator its loop runs for, so
+//   the order in which the two loops are written does not matter)
 //@   loop 1:
 //@     invariant rangeindex >= -1 && rangeindex + 1 <= len(c.complex)
-//@     invariant forall k int :: 0 <= k && k <= rangeindex ==> !a.whereImplied(c.complex[k])
+//@     invariant c.op == "&&" ==> (forall k int :: 0 <= k && k <= rangeindex ==> !a.whereImplied(c.complex[k]))
+//@     invariant c.op != "&&" ==> (forall k int :: 0 <= k && k <= rangeindex ==> a.whereImplied(c.complex[k]))
 //@   loop 2:
 //@     invariant rangeindex >= -1 && rangeindex + 1 <= len(c.complex)
-//@     invariant forall k int :: 0 <= k && k <= rangeindex ==> a.whereImplied(c.complex[k])
+//@     invariant c.op == "&&" ==> (forall k int :: 0 <= k && k <= rangeindex ==> !a.whereImplied(c.complex[k]))
+//@     invariant c.op != "&&" ==> (forall k int :: 0 <= k && k <= rangeindex ==> a.whereImplied(c.complex[k]))
 //@ func (*AttrConditionPlanner).Process [C11,C14]
 //@   at sql_select.Or$ pre-filter-only-when-the-condition-implies-it: aliases(arg0, a.where) ==> a.whereImplied(a.Conds)
 //@   requires starts-unaliased: !a.isAliased
